@@ -450,6 +450,32 @@ func (p *cparser) parsePostfix() *CExpr {
 	}
 }
 
+// parseTypeName reads a Go type: T, pkg.T, *T, []T, map[K]V.
+func (p *cparser) parseTypeName() string {
+	t := p.next()
+	switch {
+	case t.kind == "op" && t.text == "*":
+		return "*" + p.parseTypeName()
+	case t.kind == "op" && t.text == "[":
+		p.expect("]")
+		return "[]" + p.parseTypeName()
+	case t.kind == "id" && t.text == "map":
+		p.expect("[")
+		k := p.parseTypeName()
+		p.expect("]")
+		return "map[" + k + "]" + p.parseTypeName()
+	case t.kind == "id":
+		name := t.text
+		for p.peek().kind == "op" && p.peek().text == "." {
+			p.next()
+			name += "." + p.next().text
+		}
+		return name
+	}
+	p.fail("type expected, found %q", t.text)
+	return ""
+}
+
 func (p *cparser) parsePrimary() *CExpr {
 	t := p.next()
 	switch t.kind {
@@ -472,6 +498,15 @@ func (p *cparser) parsePrimary() *CExpr {
 			return &CExpr{Op: "lit-bool", Name: t.text, Pos: t.pos}
 		case "nil":
 			return &CExpr{Op: "nil", Name: "nil", Pos: t.pos}
+		case "map":
+			// a map type used as an argument of typeis/unbox: map[K]V
+			if p.peek().kind == "op" && p.peek().text == "[" {
+				p.next()
+				k := p.parseTypeName()
+				p.expect("]")
+				v := p.parseTypeName()
+				return &CExpr{Op: "id", Name: "map[" + k + "]" + v, Pos: t.pos}
+			}
 		}
 		return &CExpr{Op: "id", Name: t.text, Pos: t.pos}
 	case "op":
